@@ -484,7 +484,11 @@ func (env *Env) evalCallN(c *ast.CallExpr) []*Val {
 		if !ok {
 			env.fail(c, "method value")
 		}
-		rv := env.eval(sel.X)
+		// (a receiver outside the domain stays unbound: the call fails only if the callee's path uses it)
+		rv, rerr := env.Eval(sel.X)
+		if rerr != nil {
+			rv = nil
+		}
 		// automatic dereference / address-of at a method call: a value receiver called on a pointer gets the
 		// pointee, a pointer receiver called on an addressable value gets its address
 		if sig := fi.Sig(); sig != nil && sig.Recv() != nil && rv != nil {
@@ -499,7 +503,7 @@ func (env *Env) evalCallN(c *ast.CallExpr) []*Val {
 				}
 			}
 		}
-		if len(fi.Decl.Recv.List[0].Names) == 1 {
+		if len(fi.Decl.Recv.List[0].Names) == 1 && rv != nil {
 			ce.Vars[fi.Pkg.TypesInfo.Defs[fi.Decl.Recv.List[0].Names[0]]] = rv
 		}
 	}
